@@ -493,10 +493,19 @@ pub fn check_history(
         // a solution is listed twice (same tag): executions cannot be attributed
         return Ok(());
     }
+    // A program used at two nodes of a predicate announces the same node index from both: its executions cannot be
+    // attributed, so those nodes count as untraced.
+    let shared = |pred: usize, node: usize| -> bool {
+        let nodes = &case.predicates[pred].nodes;
+        nodes.get(node).map(|nd| nodes.iter().filter(|o| o.prog == nd.prog).count() > 1).unwrap_or(true)
+    };
     let mut seen: BTreeMap<(usize, u16), Vec<u64>> = BTreeMap::new();
     for r in reqs {
         if r.key.len() == 3 && r.key[0] == TRACE {
             let Some(si) = by_tag.get(&r.key[2]) else { continue };
+            if r.key[1] < 0 || shared(case.solutions[*si].pred, r.key[1] as usize) {
+                continue;
+            }
             seen.entry((*si, r.key[1] as u16)).or_default().push(r.seq);
         }
     }
@@ -533,6 +542,7 @@ pub fn check_history(
                 .get(n)
                 .map(|nd| case.programs[nd.prog].first() == Some(&crate::model::ops::MOp::PUSH(TRACE)))
                 .unwrap_or(false)
+                && !shared(s.pred, n)
         };
         for node in 0..a.parents.len() {
             if !traced(node) {
